@@ -82,11 +82,16 @@ SEEDS = {
            "flag_fuse_velocity=False with velocity_bins >= 2: decode(encode(.)) returns the top bin for every velocity, dictionary_size < len(dictionary)"),
  "C05-c": ("C05", "quantise: the recorded spans `message_timings[(channel, pitch)]` replaced by `note_endings[pitch]` (pitch alone) at three sites; the open-note table keeps the full key",
            "the same pitch on two channels, a note-on on one channel quantising to a tick before the quantised end of a note on the other: the second note disappears"),
+ "C20-b": ("C20", "CircleOfFifths.from_distance: the modular index replaced by an explicit wrap-around whose upper guard is `>` instead of `>=`",
+           "base position + distance == 12 (F#+1, B+2, E+3, A+4, D+5, G+6): IndexError instead of pitch class 1"),
+ "C16-c": ("C16", "Sequence.copy rewritten as three branches keyed on view freshness; the abs-only branch builds the copy with `self.__class__(absolute_sequence=self.abs)` (no .copy())",
+           "a copy taken while the relative view is stale (after an absolute-side operation), followed by another absolute-side operation on either side"),
  "C17-a": ("C17", "equals: the tick comparison moved into the NOTE_ON branch; time and key signatures are compared by value only",
            "two sequences identical except for the tick of one signature, with no compared event of the channel between the old and the new tick"),
 }
 
 INITIALLY_MISSED = {
+ "C20-b": "the first version aborted with ANALYSIS-ERROR (exit 2): the exhaustive evaluator did not know local aliases of the circle list, len(), augmented assignments; it was extended and now reports VS-LAND with the six failing residue pairs",
  "C15-b": "caught from the start by C07 (SIG); C15's own check missed it because it only shared the STACK rules of the normaliser; C15 now includes the SIG rules, and SIG names the derived-quantity comparison explicitly",
  "C03-b": "missed by the first version of CLOSE (it only demanded that a bar holding a note is closed); the converse obligation was added: in the state (bar time 0, nothing emitted in the current bar) the closing guard must be definitely false",
  "C09-b": "missed by the first versions of C09 and C06: NOEXT judged only the innermost test of the removal; the rule now checks the whole path condition from the candidate loop to the removal (nothing but the flag, the positive-correction test and a membership test) and C09 includes the NOEXT / NEXT rules",
